@@ -219,7 +219,7 @@ func Reachable(schemas ast.Schemas, pkg string, roots []string) map[string]bool 
 		w := &refWalker{pkg: pkg}
 		w.walk(reflect.ValueOf(objs[n].Type), n, 0)
 		for _, p := range w.out {
-			if p.Kind != "ref" || p.Pkg != pkg {
+			if (p.Kind != "ref" && p.Kind != "constref") || p.Pkg != pkg {
 				continue
 			}
 			if _, ok := objs[p.Name]; ok && !reach[p.Name] {
